@@ -6,7 +6,8 @@ From Coq Require Import List ZArith Bool Lia.
 From Ivv Require Import Core.Kernel Core.CoreTypes Core.CoreFd Core.CoreModel Core.Monitors Core.GuardMon Core.CoreSpec
   Core.CoreInv Core.CoreRel Core.CoreCodes Core.CoreCodes2 Core.CoreExamples.
 From Ivv Require Small.TlsModel Small.TlsProofs Small.TlsLink Gen.LeafTls.
-From Ivv Require Small.ListPtrModel Small.ListPtrBase Small.ListPtrOps Small.ListPtrOps2 Small.ListPtrOps3 Small.ListPtrTop.
+From Ivv Require Small.ListPtrModel Small.ListPtrBase Small.ListPtrOps Small.ListPtrOps2 Small.ListPtrOps3 Small.ListPtrTop
+  Small.ListPtrHist.
 Import ListNotations.
 Local Open Scope Z_scope.
 
@@ -159,7 +160,8 @@ Qed.
 End Tls.
 
 Section Lists.
-Import Small.ListPtrModel Small.ListPtrBase Small.ListPtrOps Small.ListPtrOps2 Small.ListPtrOps3 Small.ListPtrTop.
+Import Small.ListPtrModel Small.ListPtrBase Small.ListPtrOps Small.ListPtrOps2 Small.ListPtrOps3 Small.ListPtrTop
+  Small.ListPtrHist.
 Local Close Scope Z_scope.
 
 (* iv_list.h at pointer level.  Rep s head l: in store s the circular list with head `head` holds exactly the
@@ -239,6 +241,22 @@ Theorem C18_list_frame :
 Proof. exact list_frame. Qed.
 Print Assumptions C18_list_frame.
 
+(* histories.  Abstract state: the heads in use with the elements of their lists (astate), all nodes pairwise
+   distinct; Inv s a: every list of a is represented in s.  astep a o a' is the VALID use of operation o (the
+   node added / the new head is on no list, the node deleted is on a list, splice between two different heads,
+   ...) with its effect on the abstract state.  EVERY history of valid operations over a pool of allocated nodes
+   smaller than the loop bound runs without a NULL / dangling dereference and without exhausting a loop bound,
+   and ends in a store that represents the abstract end state *)
+Theorem C18_list_histories :
+  forall fuel (U : list positive) os a a',
+  asteps a os a' -> forall s,
+  Inv s a -> (forall k, In k U -> alloc s k) -> incl (flat a) U ->
+  (forall o n, In o os -> new_node o = Some n -> In n U) ->
+  (length U < fuel)%nat ->
+  exists s' obs, run fuel s os = Ok (s', obs) /\ Inv s' a' /\ (forall k, alloc s' k <-> alloc s k).
+Proof. exact valid_history_preserves. Qed.
+Print Assumptions C18_list_histories.
+
 (* non-vacuity: a pool of 6 nodes, heads 1 and 2; list 1 built with add_tail 3, add_tail 4, add 5 is [5; 3; 4],
    list 2 = [6]; deleting 3 inside iv_list_for_each_safe visits 5, 3, 4 and leaves [5; 4]; the same deletion inside
    the plain iv_list_for_each dereferences NULL; del_init leaves the node testing "empty" *)
@@ -258,6 +276,17 @@ Example C18_list_nonvacuous :
      | _ => False
      end)
   | _ => False
-  end.
-Proof. vm_compute. repeat split; reflexivity. Qed.
+  end /\
+  (* a valid history (init, add_tail, add, steal, for_each_safe + del) and what it computes *)
+  asteps [] ex_history [(2, [5]); (1, [])]%positive /\ Inv (pool_start 6) [] /\
+  (match run 8 (pool_start 6) ex_history with
+   | Ok (s', obs) => obs = [ObsNone; ObsNone; ObsNone; ObsNone; ObsVisited [5; 3]%positive] /\
+                     list_for_each 8 body_nop s' (Some 2%positive) = Ok (s', [5]%positive)
+   | _ => False
+   end).
+Proof.
+  split; [vm_compute; repeat split; reflexivity |].
+  split; [exact ex_history_valid |]. split; [split; [constructor | intros h l []] |].
+  vm_compute. split; reflexivity.
+Qed.
 End Lists.
